@@ -10,7 +10,9 @@ EXTENDS ColorStr, FmtImpl, Spelling, Parse, Tokenizer, Splitter, StrMethods
 V(clause, exact) == <<IF clause = "ok" THEN "ok" ELSE "fail", IF clause = "ok" THEN "" ELSE clause,
                       IF exact THEN "exact" ELSE "drift">>
 
-Consistent(res) == Text(res.v) = res.s /\ res.n = Len(res.s)
+\* len()/.s agree with the runs, and the result's (possibly memoised) terminal string is the one a value freshly
+\* built from the same runs has (res.fr, a fact recorded by the harness: 1 = identical)
+Consistent(res) == Text(res.v) = res.s /\ res.n = Len(res.s) /\ res.fr = 1
 
 \* a value-returning operation: must not raise, must show `cells`, len()/.s must agree with the runs
 JudgeValue(pfx, res, cells, impl) ==
@@ -158,6 +160,7 @@ JudgeWslice(e) ==
 (* ---------------------------------------------------------------- C11 *)
 JudgeWsplit(e) ==
   IF e.res.k # "ok" THEN V("Wsplit.Raised", FALSE)
+  ELSE IF e.res.fr # 1 THEN V("Wsplit.PieceRendersItsRuns", FALSE)
   ELSE LET lines == [j \in 1..Len(e.res.vs) |-> Cells(e.res.vs[j])]
            c == WrapVerdict(lines, Cells(e.f), e.cols)
        IN IF c # "ok" THEN V("Wsplit." \o c, FALSE) ELSE V("ok", e.res.vs = ImplWsplit(e.f, e.cols))
@@ -165,6 +168,7 @@ JudgeWsplit(e) ==
 (* ---------------------------------------------------------------- C16 *)
 JudgeLinesplit(e) ==
   IF e.res.k # "ok" THEN V("Linesplit.Raised", FALSE)
+  ELSE IF e.res.fr # 1 THEN V("Linesplit.PieceRendersItsRuns", FALSE)
   ELSE LET c == LinesplitVerdict([j \in 1..Len(e.res.vs) |-> Cells(e.res.vs[j])], Cells(e.f.v), e.cols)
        IN IF c # "ok" THEN V("Linesplit." \o c, FALSE) ELSE V("ok", e.res.vs = ImplLinesplit(e.f.v, e.cols))
 
@@ -173,6 +177,7 @@ JudgeLinesplit(e) ==
 EmptyRunAtts(f) == LET es == SelectSeq(f, LAMBDA r : r[1] = <<>>) IN [k \in 1..Len(es) |-> Disp(es[k][2])]
 PiecesVerdict(pfx, res, f, ranges, ref, hasImpl, impl) ==
   IF res.k # "ok" THEN V(pfx \o ".Raised", FALSE)
+  ELSE IF res.fr # 1 THEN V(pfx \o ".PieceRendersItsRuns", FALSE)
   ELSE IF [j \in 1..Len(res.vs) |-> Text(res.vs[j])] # ref THEN V(pfx \o ".TextAgreesWithStr", FALSE)
   ELSE IF Len(ranges) # Len(ref) \/ [j \in 1..Len(ranges) |-> TextOfCells(Ranges(Cells(f), ranges)[j])] # ref THEN V(pfx \o ".MachinerySpecVsPython", FALSE)
   ELSE IF [j \in 1..Len(res.vs) |-> Cells(res.vs[j])] # Ranges(Cells(f), ranges) THEN V(pfx \o ".PieceFormatting", FALSE)
